@@ -48,7 +48,14 @@ def cases(tier, rng, dist):
         g = gen_strata(rng, dist)
         sc = Fraction(2) ** rng.choice([0, 0, -40]); off = rng.choice([0, 0, 2**20])
         x = [(Fraction(rng.randint(0, 3)) + off) * sc for _ in g]
-        yield {"f": "pwg", "x": [str(v) for v in x], "g": g, "dtype": rng.choice(["float", "int", "object"]), "mode": mode(), "aseed": rng.randint(0, 10**9)}
+        c = {"f": "pwg", "x": [str(v) for v in x], "g": g, "dtype": rng.choice(["float", "int", "object"]), "mode": mode(), "aseed": rng.randint(0, 10**9)}
+        if rng.random() < 0.5:
+            # session: the caller re-stratifies IN PLACE (same group array object) and calls again
+            g2 = list(g); rng.shuffle(g2)
+            if rng.random() < 0.5:
+                g2 = [rng.randint(0, 2) for _ in g]
+            c["g2"] = g2
+        yield c
     for _ in range(N // 2):
         R, Ns = rng.randint(1, 4), rng.randint(1, 4)
         yield {"f": "rows", "m": [[rng.randint(0, 3) for _ in range(Ns)] for _ in range(R)], "reps": rng.randint(1, 3), "mode": mode(), "aseed": rng.randint(0, 10**9)}
@@ -120,7 +127,13 @@ def run(c):
         x = to_arr([F(v) for v in c["x"]], c["dtype"]); g = np.array(c["g"])
         t = Tape(None, chooser_of(c))
         r, unmod, gsame = call_test(utils.permute_within_groups, (x, g, t), {}, (x, g))
-        return {"r": [r[0], [float(v) for v in r[1]]] if r[0] == "ok" else list(r), "log": list(t.log), "unmodified": unmod, "global_same": gsame}
+        out = {"r": [r[0], [float(v) for v in r[1]]] if r[0] == "ok" else list(r), "log": list(t.log), "unmodified": unmod, "global_same": gsame}
+        if c.get("g2") is not None:
+            g[:] = c["g2"]
+            t2 = Tape(None, chooser_of(c))
+            r2, unmod2, _ = call_test(utils.permute_within_groups, (x, g, t2), {}, (x, g))
+            out["second"] = {"r": [r2[0], [float(v) for v in r2[1]]] if r2[0] == "ok" else list(r2), "log": list(t2.log), "unmodified": unmod2}
+        return out
     if f == "rows":
         m = np.array(c["m"]); t = Tape(None, chooser_of(c)); outs = []
         m0 = m.copy(); cur = m
@@ -181,7 +194,7 @@ def run(c):
     return run_named(c)
 
 
-def named_call(c, seed):
+def named_call(c, seed, keep=True):
     g = np.array(c["g"]); cond = np.array(c["c"]); resp = np.array(c["resp"], dtype=float)
     fn = c["fn"]; kw = dict(reps=c["reps"], seed=seed, plus1=c["plus1"])
     if fn == "spt":
@@ -200,7 +213,12 @@ def named_call(c, seed):
     m = (np.nan_to_num(resp).reshape(-1, 4) > 0).astype(int)
     if m.shape[0] < 2:
         m = np.vstack([m, 1 - m])
-    d = irr.simulate_ts_dist(m, num_perm=c["reps"], keep_dist=True, seed=seed, plus1=c["plus1"])
+    # the reference value may be supplied by the caller (obs_ts=...): the p-value is then the tail count of dist
+    # against THAT value; the keep_dist=False twin (same seed) must report the same p-value
+    obs = [None, 0.0, 0.5, 1.0, 0.25][c["seed"] % 5]
+    d = irr.simulate_ts_dist(m, obs_ts=obs, num_perm=c["reps"], keep_dist=keep, seed=seed, plus1=c["plus1"])
+    if not keep:
+        return d["pvalue"], d["obs_ts"], []
     return d["pvalue"], d["obs_ts"], d["dist"]
 
 
@@ -260,6 +278,9 @@ def run_named(c):
     one("int1", lambda: c["seed"], c["gseed"]); one("int2", lambda: c["seed"], c["gseed"] + 1)
     one("sha", lambda: SHA256(c["seed"]), c["gseed"] + 2)
     one("rs1", lambda: np.random.RandomState(c["seed"]), c["gseed"] + 3); one("rs2", lambda: np.random.RandomState(c["seed"]), c["gseed"] + 4)
+    if c["fn"] == "ts":
+        r = guarded(lambda: named_call(c, c["seed"], keep=False))
+        out["nokeep"] = {"r": ["ok", float(r[1][0]), float(r[1][1]), []] if r[0] == "ok" else list(r)}
     return out
 
 
@@ -319,6 +340,9 @@ def to_coq(c, o):
 
 def extra_terms(c, o):
     out = []
+    if c["f"] == "pwg" and "second" in o and o["second"]["r"][0] == "ok":
+        s = o["second"]
+        out.append(f"PwgCase {qlist([F(v) for v in c['x']])} {zl(c['g2'])} {tape_coq(s['log'])} {qlist([fl(v) for v in s['r'][1]])} {cnat(len(s['log']))}")
     if c["f"] == "simcorr" and o["r"][0] == "ok" and all(math.isfinite(v) for v in o["r"][3] + [o["r"][2]]):
         out.append(f"StratPval {CALT[c['alt']]} {cq(fl(o['r'][2]))} {qlist([fl(v) for v in o['r'][3]])} {cbool(c['plus1'])} {cq(fl(o['r'][1]))}")
     if c["f"] == "named" and c["fn"] in ("spt", "s2s_mean", "s2s_t", "s2s_mws", "sim_corr"):
@@ -369,6 +393,15 @@ def oracle(c, o):
         want = [b for s in [c["g"].count(k) for k in sorted(set(c["g"]))] for b in range(s, 0, -1)]
         if [b for (b, _) in o["log"]] != want:
             return {"why": f"permute_within_groups requested draws with bounds {[b for (b, _) in o['log']]}, expected one Fisher-Yates pass per group {want} independent of the data", "cls": "pwg:draws-depend-on-data"}
+        if "second" in o:
+            s = o["second"]; g2 = c["g2"]
+            if s["r"][0] != "ok": return {"why": f"permute_within_groups raised on the second call of a session: {s['r']}", "cls": "pwg:raises"}
+            if not s["unmodified"]: return {"why": "permute_within_groups modified its arguments (second call)", "cls": "pwg:input-modified"}
+            if not within_strata_ok(x, [fl(v) for v in s["r"][1]], g2):
+                return {"why": f"after the group array was changed in place from {c['g']} to {g2}, permute_within_groups moved values between the NEW groups: {c['x']} -> {s['r'][1]}", "cls": "pwg:inadmissible"}
+            want2 = [b for k in sorted(set(g2)) for b in range(g2.count(k), 0, -1)]
+            if [b for (b, _) in s["log"]] != want2:
+                return {"why": f"second call (group array changed in place to {g2}): draws with bounds {[b for (b, _) in s['log']]}, expected {want2}", "cls": "pwg:draws-depend-on-data"}
         return None
     if f == "rows":
         if o["r"][0] != "ok": return {"why": f"permute_rows raised {o['r']}", "cls": "rows:raises"}
@@ -473,6 +506,10 @@ def oracle(c, o):
     rs = {k: v["r"] for k, v in o.items()}
     if any(v[0] != "ok" for v in rs.values()):
         return {"why": f"{name} raised: {[(k, v[:3]) for k, v in rs.items() if v[0] != 'ok']}", "cls": f"{name}:raises"}
+    if "nokeep" in rs:
+        nk = rs.pop("nokeep"); o = {k: v for k, v in o.items() if k != "nokeep"}
+        if not close(nk[1], rs["int1"][1]) or nk[2] != rs["int1"][2]:
+            return {"why": f"{name}: keep_dist=False gives (p, obs) = {nk[1:3]}, keep_dist=True {rs['int1'][1:3]} under the same seed", "cls": f"{CANON.get(name, name)}:keepdist-differs"}
     def same(a, b):
         return len(a) == len(b) and all((x == y) or (isinstance(x, float) and isinstance(y, float) and math.isnan(x) and math.isnan(y)) or (isinstance(x, list) and same(x, y)) for x, y in zip(a, b))
     if not same(rs["int1"], rs["int2"]): return {"why": f"{name}: equal seeds under different numpy global states differ", "cls": f"{name}:irreproducible"}
